@@ -596,6 +596,24 @@ def main_single():
         if cfg_y != cfg:
             chk.violation("load_config(yaml) differs from parse_config_dict(dict)", {"kind": "yaml", "o": o, "m": m, "raw": raw}, klass={"check": "yaml"})
             continue
+        # ... also when names and time labels are strings that LOOK like numbers ('4711', '0930', '1e3'): a label is a label
+        raw_n = copy.deepcopy(raw)
+        raw_n["towers"][0]["name"] = "4711"
+        nts = len(raw_n["met"].get("timestamps") or [])
+        if nts:
+            raw_n["met"]["timestamps"] = (["0930", "1e3", "20240715", "1000", "007"] * nts)[:nts]
+        with open(yp, "w") as f:
+            yaml.safe_dump(raw_n, f)
+        try:
+            cfg_yn, cfg_n = load_config(yp), parse_config_dict(copy.deepcopy(raw_n))
+            labels_n = [cfg_yn.met.get_step(i_)["timestamp"] for i_ in range(cfg_yn.met.n_timesteps)] if nts else []
+            if cfg_yn != cfg_n or cfg_yn.towers[0].name != "4711" or (nts and labels_n != raw_n["met"]["timestamps"]):
+                chk.violation("a configuration file whose tower name / time labels are numeric-looking strings loads as name %r, labels %r (written: '4711', %r)" % (cfg_yn.towers[0].name, labels_n, raw_n["met"].get("timestamps")),
+                              {"kind": "yaml_labels", "o": o, "m": m, "raw": raw_n}, klass={"check": "yaml_labels"})
+                continue
+        except Exception as ex:  # noqa: BLE001
+            chk.violation("a configuration file with numeric-looking string labels raised %r" % ex, {"kind": "yaml_labels", "o": o, "m": m, "raw": raw_n}, klass={"check": "yaml_labels"})
+            continue
         for i, want in enumerate(e["log"]):
             sc = {"kind": "single", "o": o, "m": m, "step": i, "raw": raw}
             rec = Recorder(iface)
